@@ -322,7 +322,7 @@ fn after_ok_dispatch(timeout: Option<Duration>, elapsed: Duration) {
             if life.synth_returned && !touched {
                 if life.synth_delivered == 0 {
                     w.alarm("C14.synthetic", "synthetic-not-delivered", format!("source #{} returned a synthetic event from before_sleep in dispatch {} but never got it", uid, d));
-                } else if life.synth_delivered > 1 {
+                } else if life.synth_delivered > 1 && !(life.synth_delivered == 2 && w.srcs[i].synth_maybe) {
                     w.alarm("C14.synthetic", "synthetic-delivered-twice", format!("source #{} got its synthetic event {} times", uid, life.synth_delivered));
                 }
             }
@@ -336,6 +336,10 @@ fn after_ok_dispatch(timeout: Option<Duration>, elapsed: Duration) {
                     w.alarm("C14.iterator_exact", c, format!("source #{} dispatch {}: iterator yielded {:x?}, processed {:x?}", uid, d, a, b));
                 }
             }
+        }
+        // (whatever the loop still held from a failed dispatch has been handed over or dropped by now)
+        for s in w.srcs.iter_mut() {
+            s.synth_maybe = false;
         }
         // C14: a synthetic event forces a non-blocking wait
         if let Some(to) = timeout {
